@@ -720,7 +720,12 @@ class CSSSerializer:
         """
         if rule.wellformed and self.prefs.keepUnknownAtRules:
             out = Out(self)
-            out.append(rule.atkeyword)
+            keyword = rule.atkeyword
+            if keyword == '@charset':
+                # unknown because it is written in another letter case: in the
+                # normalized spelling it would be (taken for) an @charset rule
+                keyword = getattr(rule, '_keyword', None) or keyword
+            out.append(keyword)
 
             stacks = []
             for item in rule.seq:
